@@ -169,7 +169,7 @@ contract(
     # C15: if the process dies after any mutating call of check(), the object is not write-protected unless it was so before or its
     # bytes match its name (protect must come AFTER the comparison)
     crash=lambda c: Implies(And(l444(c.h).contains(P(c)), Not(l444(c.h0).contains(P(c)))), goodp(c)),
-    props=["C07", "C15"],
+    props=["C07", "C15", "C11", "C12", "C04"],
     doc="re-hash (through the state cache), compare raw digests, delete on mismatch, protect on success",
 )
 
@@ -196,7 +196,7 @@ contract(
         # an intact object is never rejected (the exceptional clause 'ObjectFormatError => not good' is the other half)
         "returned_unprotected_matches": lambda c: Implies(And(Not(l444(c.h0).contains(P(c))), c.check_hash), goodp(c)),
     },
-    props=["C07", "C15"],
+    props=["C07", "C15", "C11", "C12", "C04"],
     doc="local store trusts only files whose mode is exactly the protected mode; everything else is re-hashed",
 )
 
@@ -288,9 +288,20 @@ contract(
     locals=dict(ret=TList(TStr)),
     invariants={0: _oe_inv},
     ensures=lambda c: And(_ret_ok(c, c.result), _kept(c), lfiles(c.h).subset(lfiles(c.h0))),
-    props=["C07", "C15"],
+    props=["C07", "C15", "C11", "C12", "C04"],
     doc="an existence query on a local store is an integrity check: every id returned is present and either was write-protected "
         "or matches its name; write-protected objects are never removed",
+)
+
+
+contract(
+    "ext:dvc_objects.db.ObjectDB.list_oids_exists",
+    params=dict(self=HashFileDB, oids=TList(TStr), jobs=TOpt(TInt)),
+    returns=TList(TStr),
+    ensures=lambda c: _all(c.result, lambda o: And(specfn.list_elems(c.oids).contains(OStr.some(o)) if False else lift(True),
+                                                   lfiles(c.h).contains(O(c.h.get("HashFileDB.path", c.self), o)))),
+    assumed=True,
+    doc="ObjectDB.list_oids_exists(oids): the requested ids whose object FILE exists (fs.exists in batches) -- it looks at no bytes",
 )
 
 
